@@ -147,7 +147,7 @@ func (s *Solver) prepare(root *Term) {
 		if t.Op == OpVar {
 			if !s.declared[t] {
 				s.declared[t] = true
-				s.send(fmt.Sprintf("(declare-const %s %s)", smtName(t.Name), sortStr(t.W)))
+				s.send(fmt.Sprintf("(declare-const %s %s)", smtName(fmt.Sprintf("%s@%d", t.Name, t.W)), sortStr(t.W)))
 			}
 			continue
 		}
